@@ -88,7 +88,10 @@ func c09NearValid(c *Ctx, st c09State, hostMode bool) (impl.Req, string) {
 	if up == "" || c.Rng.Intn(8) == 0 {
 		up = pick(c, []string{"99999", "1", "abc"})
 	}
-	switch c.Rng.Intn(16) {
+	switch c.Rng.Intn(18) {
+	case 16, 17:
+		rq.Method = "PUT"
+		body = c09Chunked(c, rq.Header, c.randBytes(1+c.Rng.Intn(64)))
 	case 0:
 		rq.Method = "PUT"
 		body = c.randBytes(c.Rng.Intn(64))
@@ -126,6 +129,9 @@ func c09NearValid(c *Ctx, st c09State, hostMode bool) (impl.Req, string) {
 		body = []byte("part-" + q.Get("partNumber"))
 		if c.Rng.Intn(6) == 0 {
 			rq.Header["Content-Length"] = "99"
+		}
+		if c.Rng.Intn(5) == 0 {
+			body = c09Chunked(c, rq.Header, body)
 		}
 	case 9, 10, 11:
 		// complete: mostly rejected variants (the pending upload must stay usable afterwards)
@@ -191,6 +197,39 @@ func c09NearValid(c *Ctx, st c09State, hostMode bool) (impl.Req, string) {
 	}
 	desc := fmt.Sprintf("%s %s?%s host=%q hdr=%v body=%q", rq.Method, trunc(rq.Path, 60), trunc(rq.Query, 120), rq.Host, hdrDesc(rq.Header), trunc(string(body), 200))
 	return rq, desc
+}
+
+// c09Chunked frames a payload as an aws-chunked upload whose size fields, separators and declared
+// decoded length are mostly slightly wrong (signed, huge, prefixed, missing): the decoder sits in
+// front of every upload path and must answer with an error, never panic
+func c09Chunked(c *Ctx, hdr map[string]string, payload []byte) []byte {
+	sig := strings.Repeat("a", 64)
+	size := fmt.Sprintf("%x", len(payload))
+	sep := ";chunk-signature="
+	last := "0"
+	decoded := fmt.Sprint(len(payload))
+	// one deviation at a time (two would mostly be refused for the other reason)
+	switch c.Rng.Intn(5) {
+	case 0, 1:
+		size = pick(c, []string{"-1", fmt.Sprintf("-%x", len(payload)+1), fmt.Sprintf("-%x", len(payload)), "ffffffffffffffff", "7fffffffffffffff", "8000000000000000",
+			"+" + size, "0x" + size, "", fmt.Sprintf("%x", len(payload)+3), "-0", "-7fffffffffffffff", "-8000000000000000"})
+	case 2:
+		sep = pick(c, []string{";", ";chunk-signature", "", ";chunk-signature=" + sig + ";x="})
+	case 3:
+		decoded = pick(c, []string{"0", "-1", "", "x", fmt.Sprint(len(payload) + 1), fmt.Sprint(len(payload) - 1)})
+	case 4:
+		last = pick(c, []string{"", "-0", "00", "-1", "1"})
+	}
+	var b []byte
+	b = append(b, []byte(size+sep+sig+"\r\n")...)
+	b = append(b, payload...)
+	b = append(b, []byte("\r\n")...)
+	if last != "" {
+		b = append(b, []byte(last+";chunk-signature="+sig+"\r\n\r\n")...)
+	}
+	hdr["X-Amz-Content-Sha256"] = "STREAMING-AWS4-HMAC-SHA256-PAYLOAD"
+	hdr["X-Amz-Decoded-Content-Length"] = decoded
+	return b
 }
 
 // c09Request draws one request from the grammar of the routed surface.
